@@ -16,6 +16,7 @@ package engine
 
 import (
 	"errors"
+	"fmt"
 
 	"codeberg.org/TauCeti/mangle-go/ast"
 	"codeberg.org/TauCeti/mangle-go/factstore"
@@ -31,7 +32,14 @@ type QueryContext struct {
 	PredToDecl         map[ast.PredicateSym]*ast.Decl
 	Store              factstore.ReadOnlyFactStore
 	ExternalPredicates map[ast.PredicateSym]ExternalPredicateCallback
+	// Number of deferred-predicate calls on the way to the current goal.
+	depth int
 }
+
+// maxDeferredDepth bounds how deep calls of deferred predicates may nest. Top-down
+// evaluation has no loop check: a recursive deferred predicate over cyclic data
+// would otherwise recurse until the stack is exhausted.
+const maxDeferredDepth = 10000
 
 // EvalQuery evaluates a query top-down, according to mode and union-find-subst.
 // The mode must consist only of ArgModeInput (+) and ArgModeOutput (-).
@@ -149,6 +157,10 @@ func (q QueryContext) EvalPremise(premise ast.Term, subst unionfind.UnionFind) (
 		}
 		decl := q.PredToDecl[p.Predicate]
 		if decl != nil && decl.DeferredPredicate() {
+			q.depth++
+			if q.depth > maxDeferredDepth {
+				return nil, fmt.Errorf("evaluation of deferred predicate %v nests deeper than %d calls", p.Predicate, maxDeferredDepth)
+			}
 			err := q.EvalQuery(p, decl.Modes()[0], subst, func(fact ast.Atom) error {
 				newsubst, err := unionfind.UnifyTermsExtend(p.Args, fact.Args, subst)
 				if err != nil {
